@@ -292,6 +292,18 @@ impl<'a> Model<'a> {
             }
         };
 
+        // Compares two elements when an operand is an array: like the arithmetic and the
+        // concatenation operators, an error element is propagated (left first).
+        let compare_nodes = |lv: &CalcResult, rv: &CalcResult| -> ArrayNode {
+            if let CalcResult::Error { error, .. } = lv {
+                return ArrayNode::Error(error.clone());
+            }
+            if let CalcResult::Error { error, .. } = rv {
+                return ArrayNode::Error(error.clone());
+            }
+            ArrayNode::Boolean(apply(lv, rv))
+        };
+
         match (l, r) {
             (ValueOrArray::Value(lv), ValueOrArray::Value(rv)) => {
                 CalcResult::Boolean(apply(&lv, &rv))
@@ -300,7 +312,7 @@ impl<'a> Model<'a> {
                 la.iter()
                     .map(|row| {
                         row.iter()
-                            .map(|n| ArrayNode::Boolean(apply(&node_to_calc(n), &rv)))
+                            .map(|n| compare_nodes(&node_to_calc(n), &rv))
                             .collect()
                     })
                     .collect(),
@@ -309,7 +321,7 @@ impl<'a> Model<'a> {
                 ra.iter()
                     .map(|row| {
                         row.iter()
-                            .map(|n| ArrayNode::Boolean(apply(&lv, &node_to_calc(n))))
+                            .map(|n| compare_nodes(&lv, &node_to_calc(n)))
                             .collect()
                     })
                     .collect(),
@@ -334,7 +346,7 @@ impl<'a> Model<'a> {
                             .and_then(|r| bcast_idx(m2, ci).and_then(|j| r.get(j)))
                             .map(node_to_calc);
                         let node = match (lv, rv) {
-                            (Some(lv), Some(rv)) => ArrayNode::Boolean(apply(&lv, &rv)),
+                            (Some(lv), Some(rv)) => compare_nodes(&lv, &rv),
                             _ => ArrayNode::Error(Error::VALUE),
                         };
                         data_row.push(node);
